@@ -116,7 +116,8 @@ Universe ==
                        \cup {Ins("SET" \o cc, <<Rg(8, a)>>) : cc \in {"Z", "NZ", "E", "NE", "C", "NC", "B", "AE", "A", "BE", "L", "GE", "G", "LE", "S", "NS", "O", "NO", "P", "NP"}, a \in {0, 5}}
                        \cup {Ins("SET" \o cc, <<m>>) : cc \in {"Z", "NE", "A", "L"}, m \in MemFew(8)}
                        \cup {Ins("ENTER", <<Im(a, "d"), Im(b, "d")>>) : a \in {0, 8, 65535}, b \in {0, 1, 31}}
-                       \cup {Ins(mn, <<Rg(w, a)>>) : mn \in {"JMP", "CALL"}, w \in {16, 32}, a \in {0, 3, 6}}
+    \* indirect transfers (calibration only: gosk takes the register name for an undefined label, see D_UndefinedIsZero; C07's matrix has them)
+    [] Part = "extj" -> {Ins(mn, <<Rg(w, a)>>) : mn \in {"JMP", "CALL"}, w \in {16, 32}, a \in {0, 3, 6}}
                        \cup UNION {{Ins(mn, <<m>>) : mn \in {"JMP", "CALL"}, m \in MemFew(w)} : w \in {16, 32}}
     [] Part = "noop" -> {Ins(mn, << >>) : mn \in NoOps}
     [] Part = "c18r" -> {Ins(mn, <<Rg(w, a), Im(v, "d")>>) : mn \in AluI, w \in W, a \in Regs, v \in (-130..-126) \cup (125..130) \cup {0, 1, -1}}
